@@ -27,6 +27,7 @@ ParT3 == << E("imu", "bias", "i:2", "double", "<d", "i:0", "b:F"),
 Empty == << >>
 
 LogQuick == {LogT1, LogT2}
+ParQ1 == {ParT2}        \* the quick exhaustive runs: one (extended, read-only) parameter table
 ParQuick == {ParT1, ParT2}
 \* the empty table is stored as {} and read back as a falsy value: a miss (`if (cache_data)`)
 LogEmpty == {LogT1, Empty}
